@@ -133,7 +133,7 @@ Not decided: collisions between distinct ASN.1 names after mangling; exact case-
                 None
             };
             let cr = const_resolver(m);
-            let ev = Evaluator { consts: &cr, call_hook: &hook };
+            let ev = Evaluator { consts: &cr, call_hook: &hook, inline: None };
             let mut env = Env::new();
             match ev.eval(&i.cond, &mut env) {
                 Ok(Val::Bool(b)) => {
@@ -231,7 +231,7 @@ fn annotation_sites(m: &Model, ctx: &mut Ctx) {
                 }
                 None
             };
-            let ev = Evaluator { consts: &consts, call_hook: &hook };
+            let ev = Evaluator { consts: &consts, call_hook: &hook, inline: None };
             let mut env = Env::new();
             env.insert("name".into(), Val::Str(mangled.into()));
             let mut n = BTreeMap::new();
@@ -249,7 +249,7 @@ fn annotation_sites(m: &Model, ctx: &mut Ctx) {
                 }
                 hook(ev2, name, args)
             };
-            let ev = Evaluator { consts: ev.consts, call_hook: &hook2 };
+            let ev = Evaluator { consts: ev.consts, call_hook: &hook2, inline: None };
             env.insert("member".into(), Val::ctor("member"));
             let r = ev.eval(&syn::Expr::If(stmt.clone()), &mut env);
             match r {
